@@ -38,7 +38,7 @@ def _dispatch(job):
     if kind == "rand":
         case = ck.rand_case(case)
     out = [ck.run_dump(case)]
-    if kind != "model-attrs" and ck.jar_eligible(case):
+    if kind not in ("model-attrs", "grammar") and ck.jar_eligible(case):
         out.append(ck.run_jar(case))
     return case, out
 
@@ -274,6 +274,10 @@ def run(ctx: Ctx):
 
     jobs = _model_cases(ctx, ("MCX_values", "MCX_attrsA", "MCX_attrsB") if q else ("MCXT_values", "MCX_attrsA", "MCX_attrsB"))
     jobs += [("sweep", c) for c in ck.sweep_cases()]
+    # attribute grammar: Domain (dot x port x label count x scripts per position x call path) and Path feature products
+    grammar = ck.domain_product(not q) + ck.path_product(not q)
+    jobs += [("grammar", c) for c in grammar]
+    ctx.notes["attribute_grammar_cases"] = len(grammar)
     n = 2000 if q else 40000
     jobs += [("rand", ctx.seed * 1000003 + i) for i in range(n)]
     results = pmap(_dispatch, jobs, workers=ctx.workers, chunksize=64)
